@@ -20,6 +20,26 @@ theorem decode_encode (max : Nat) (m : Msg) (h : WFMsg max m) (rest : Bytes) :
     step max (encode m ++ rest) = .msg m (effsOf m) rest :=
   step_encode max m h rest
 
+/-- **bencode_roundtrip.** The payload of each of the three extension messages (handshake,
+ut_metadata incl. the raw block after the dictionary, ut_pex), as the encoder writes it, passes the
+guard and is decoded back to the identical record, for every well-formed record: any number of
+`m` entries with distinct keys, any strings, any block. -/
+theorem bencode_roundtrip (p : Rain.Bencode.ExtPayload) (h : Rain.Bencode.WFPayload p) :
+    (Rain.Bencode.parseExt (Rain.Bencode.kindId p) (Rain.Bencode.encPayload p)).1 = some p :=
+  Rain.Bencode.parseExt_encPayload p h
+
+/-- **encode_spec (extension payloads).** The dictionaries are in canonical bencode: keys in
+sorted order (`m` < `metadata_size` < `reqq` < `v` < `yourip`; `msg_type` < `piece` < `total_size`;
+`added` < `dropped`), `omitempty` fields left out when zero/empty, integers as `i<decimal>e`,
+strings as `<len>:<bytes>`, the metadata block raw after the dictionary. -/
+theorem encode_spec_ext :
+    (∀ h, Rain.Bencode.encHandshake h = Rain.Bencode.render (Rain.Bencode.hsToks h)) ∧
+    (∀ m, Rain.Bencode.encMetadata m = Rain.Bencode.render (Rain.Bencode.mdToks m) ++ m.data) ∧
+    (∀ p, Rain.Bencode.encPex p = Rain.Bencode.render (Rain.Bencode.pexToks p)) := by
+  refine ⟨Rain.Bencode.encHandshake_render, Rain.Bencode.encMetadata_render, ?_⟩
+  intro p
+  simp [Rain.Bencode.encPex, Rain.Bencode.pexToks, Rain.Bencode.render, Rain.Bencode.renderTok]
+
 /-- **encode_spec (framing).** Every frame is the 4-byte big-endian value `1 + |body|`, then the
 message id, then the body. -/
 theorem encode_spec_frame (m : Msg) :
@@ -135,6 +155,18 @@ example : (run 100 (encodeAll [.have 7, .request 1 16384 16384, .piece 2 0 [1, 2
     = [.have 7, .request 1 16384 16384, .piece 2 0 [1, 2, 3], .bitfield [255, 0], .port 6881] := by decide
 
 example : WFMsg 100 (.piece 2 0 [1, 2, 3]) := by simp [WFMsg]
+
+/-- Non-vacuity for the extension kinds: an extension handshake as rain sends it
+(`m = {ut_metadata: 1, ut_pex: 2}`, `v = "Rain"`, `reqq = 250`) is well-formed and round-trips. -/
+example : (run 1000 (encode (.ext 0 (.handshake
+    { m := [([117,116,95,109,101,116,97,100,97,116,97], 1), ([117,116,95,112,101,120], 2)],
+      v := [82,97,105,110], yourip := [127,0,0,1], metadataSize := 31337, reqq := 250 })))).msgs =
+    [.ext 0 (.handshake
+    { m := [([117,116,95,109,101,116,97,100,97,116,97], 1), ([117,116,95,112,101,120], 2)],
+      v := [82,97,105,110], yourip := [127,0,0,1], metadataSize := 31337, reqq := 250 })] := by decide
+
+example : Rain.Bencode.WFPayload (.metadata { msgType := 1, piece := 2, totalSize := 40000, data := [0, 17, 34] }) := by
+  simp [Rain.Bencode.WFPayload, Rain.Bencode.WFMetadata]
 
 example : encode (.request 1 16384 16384) = [0, 0, 0, 13, 6, 0, 0, 0, 1, 0, 0, 64, 0, 0, 0, 64, 0] := by decide
 
